@@ -214,9 +214,22 @@ def run(ctx: Context) -> None:
                            and head.slice.lower is None and head.slice.step is None and is_neg_len(head.slice.upper)
                            and isinstance(head.value, ast.Attribute) and head.value.attr == 'shape'
                            and flow.canon(head.value.value) == moved_canon)
-                ok_tail = isinstance(tail, ast.Tuple) and len(tail.elts) == 1 and const_value(tail.elts[0], None) == -1
+                explicit = False
+                if isinstance(tail, ast.Tuple) and len(tail.elts) == 1:
+                    # the merged length written out: prod(moved.shape[-len(dimensions):]) (optionally through int())
+                    sz = flow.resolve(tail.elts[0])
+                    while isinstance(sz, ast.Call) and isinstance(sz.func, ast.Name) and sz.func.id == 'int' and len(sz.args) == 1:
+                        sz = flow.resolve(sz.args[0])
+                    if isinstance(sz, ast.Call) and callee(ctx, rv, sz) in ('numpy.prod', 'math.prod') and len(sz.args) == 1 and not sz.keywords:
+                        a = flow.resolve(sz.args[0])
+                        explicit = (isinstance(a, ast.Subscript) and isinstance(a.slice, ast.Slice) and a.slice.upper is None and a.slice.step is None
+                                    and is_neg_len(a.slice.lower) and isinstance(a.value, ast.Attribute) and a.value.attr == 'shape'
+                                    and flow.canon(a.value.value) == moved_canon)
+                ok_tail = isinstance(tail, ast.Tuple) and len(tail.elts) == 1 and (const_value(tail.elts[0], None) == -1 or explicit)
                 ok_shape = ok_head and ok_tail
-            ctx.check('R03.1', ok_shape, "new shape = moved.shape[:-len(dimensions)] + (-1,): exactly the moved dimensions are merged", rv, rs,
+                ctx.check('R03.1', ok_shape and explicit, "the merged length is written out as the product of the moved dimensions' lengths: numpy cannot infer a -1 when an accompanying dimension is empty "
+                          "(a time dimension without records)", rv, rs, construct=f"merged length = {norm_text(tail.elts[0]) if isinstance(tail, ast.Tuple) and tail.elts else '?'}")
+            ctx.check('R03.1', ok_shape, "new shape = moved.shape[:-len(dimensions)] + (merged length,): exactly the moved dimensions are merged", rv, rs,
                       construct=f"new shape = {norm_text(shape) if shape is not None else '?'}")
         dparts = _flatten_add(flow.resolve(dims))
         ok_dims = False
@@ -465,11 +478,13 @@ VARIANTS = [
     V('C03', 'reshape-order-F', _U, "    new_data = data_array.values.reshape(new_shape)\n    existing_dims", "    new_data = data_array.values.reshape(new_shape, order='F')\n    existing_dims", 'R03.1'),
     V('C03', 'append-reversed', _U, "    new_order = [dim for dim in data_array.dims if dim not in dimensions] + dimensions", "    new_order = [dim for dim in data_array.dims if dim not in dimensions] + dimensions[::-1]", 'R03.3'),
     V('C03', 'others-sorted', _U, "    new_order = [dim for dim in data_array.dims if dim not in dimensions] + dimensions", "    new_order = sorted([dim for dim in data_array.dims if dim not in dimensions], key=str) + dimensions", 'R03.3'),
-    V('C03', 'merge-one-too-many', _U, "    new_shape = data_array.shape[:-len(dimensions)] + (-1,)", "    new_shape = data_array.shape[:-len(dimensions) - 1] + (-1,)", 'R03.1'),
+    V('C03', 'merge-one-too-many', _U, "    new_shape = data_array.shape[:-len(dimensions)] + (linear_size,)", "    new_shape = data_array.shape[:-len(dimensions) - 1] + (-1,)", 'R03.1'),
     V('C03', 'values-scaled', _U, "    new_data = data_array.values.reshape(new_shape)\n    existing_dims", "    new_data = data_array.values.reshape(new_shape) * 1.0\n    existing_dims", 'R03.2'),
     V('C03', 'values-cast', _U, "    new_data = data_array.values.reshape(new_shape)\n    return xarray.DataArray(data=new_data, dims=new_dims)", "    new_data = data_array.values.astype(float).reshape(new_shape)\n    return xarray.DataArray(data=new_data, dims=new_dims)", 'R03.2'),
     V('C03', 'splice-different-index', _U, "    new_shape = splice_tuple(data_array.shape, dimension_index, sizes)", "    new_shape = splice_tuple(data_array.shape, len(data_array.shape) - 1, sizes)", 'R03.1'),
     V('C03', 'splice-off-by-one', _U, "    return t[:index] + tuple(values) + t[index:][1:]", "    return t[:index] + tuple(values) + t[index:][2:]", 'R03.1'),
+    V('C03', 'merged-length-inferred', 'src/emsarray/utils.py', "    new_shape = data_array.shape[:-len(dimensions)] + (linear_size,)", "    new_shape = data_array.shape[:-len(dimensions)] + (-1,)", 'R03.1'),
+    V('C03', 'merged-length-one-dimension-short', 'src/emsarray/utils.py', "    linear_size = int(numpy.prod(data_array.shape[-len(dimensions):]))", "    linear_size = int(numpy.prod(data_array.shape[-len(dimensions) + 1:]))", 'R03.1'),
     V('C03', 'sizes-reversed', _B, "        sizes = list(self.grid_shape[grid_kind])", "        sizes = list(reversed(self.grid_shape[grid_kind]))", 'R03.1'),
     V('C03', 'sizes-of-default-kind', _B, "        sizes = list(self.grid_shape[grid_kind])", "        sizes = list(self.grid_shape[self.default_grid_kind])", 'R03.1'),
     V('C03', 'benign-sizes-from-dataset', _B, "        sizes = list(self.grid_shape[grid_kind])", "        sizes = [self.dataset.sizes[dim] for dim in dimensions]", None),
